@@ -33,6 +33,7 @@ ASSUMPTIONS = [
     "ideal network = premise of the property; animals are placed >= 5 radii apart (well separated) so single-linkage clustering inside the ideal network recovers the animals",
     "geometry obeys the resolution rule of DESIGN C02/C03: disc radius >= 3 input px, node spacing >= max(3.5 PAF cells, 2r+4), image max side >= 8.5 animal radii so that the default max_edge_length_ratio does not penalise skeleton edges; half of the runs use the portrait form of the scene (x and y exchanged: tall frame, short side ~2.6 radii)",
     "narrow-band variant of the long family: PAF stride 8, PAF spread 3.5 px, chains along a grid direction 6 px off the cell centres (nearest-cell sampling of the line integral is within 2 px of the line, any other cell > 6 px)",
+    "crowded frames: up to 5 animals x 4 nodes (20 peaks in one frame) for two listings of the 4-chain",
     "'long' family: 3-node chains (three listings) whose nodes lie along a narrow frame with a node spacing of 1.25x the stride-padded short side of the network input (an edge longer than the frame is wide but at most half its long side), 1-2 animals, both orientations, every configuration",
     "quick: all skeletons n<=3 in all listings, all 64 rooted trees on 4 nodes with one listing each (rotating), 4 pairwise-covering configs, A<=2 (3 for n<=3); thorough: all listings for n<=4, n=5,6 with canonical listing + reverse on a deterministic subset of trees, 16 configs, A<=3 (n<=4), 5 animals for a sub-grid",
 ]
@@ -293,6 +294,10 @@ def cases(tier, seed):
         for ci, cfg in enumerate(cfgs):
             for portrait in (True, False):
                 out.append({"n": n, "edges": edges, "cfg": dict(cfg, provider="VideoReader" if portrait else "LabelsReader", portrait=portrait, long=True), "animals": 2, "labels_too": False})
+    # crowded frames: 5 animals x 4 nodes = 20 detected peaks in one frame (more than 16: sorting routines switch algorithm)
+    for ci in ((0, 3) if tier == "quick" else range(len(cfgs))):
+        for edges in ([[0, 1], [1, 2], [2, 3]], [[2, 3], [1, 2], [0, 1]]):
+            out.append({"n": 4, "edges": edges, "cfg": dict(cfgs[ci], provider="VideoReader", portrait=False), "animals": 5, "labels_too": False})
     # narrow-band variant of the long family: PAF stride 8 with a PAF spread of 3.5 px, chains running along a grid
     # direction at an offset in the far half of a PAF cell (x = 14.x): sampling the field at the NEAREST cell stays
     # within 2 px of the line (weight ~0.9), any other cell of the neighbourhood is > 6 px away (weight < 0.25)
